@@ -38,7 +38,7 @@ let grid_of_hex (bypp : int) (w : int) (h : int) (s : string) : z list list =
 
 let enc_of = function
   | "raw" -> 0 | "rre" -> 2 | "corre" -> 4 | "hextile" -> 5 | "zlib" -> 6 | "tight" -> 7
-  | "ultra" -> 9 | "zrle" -> 16 | "zywrle" -> 17 | "tightpng" -> -260 | s -> int_of_string s
+  | "ultra" -> 9 | "zrle" -> 16 | "zywrle" -> 17 | "tightpng" -> -260 | "default" -> -1 | s -> int_of_string s
 
 let bypp = ref 4
 let sbypp = ref 4
@@ -55,6 +55,7 @@ let fmt : int array ref = ref [||]
 (* which variant of the two ZRLE defects the source text has (decided by props/C01.py) *)
 let f1_fixed = ref false
 let f2_fixed = ref false
+let f7_fixed = ref false
 
 let enc_cmode () =
   let f = !fmt in
@@ -91,7 +92,8 @@ let () =
          | _ -> tight_quality := -1);
         tight_lastrect := List.mem "lastrect" rest
     | ["corre"; a; b] -> mw := ri a; mh := ri b
-    | ["variant"; a; b] -> f1_fixed := (a = "1"); f2_fixed := (b = "1")
+    | "variant" :: a :: b :: rest -> f1_fixed := (a = "1"); f2_fixed := (b = "1");
+        f7_fixed := (match rest with c :: _ -> c = "1" | [] -> false)
     | ["tr"; w; h; hex] -> scr := grid_of_hex !bypp (ri w) (ri h) hex
     | ["upd"; x; y; w; h] ->
         let p = { p_enc = z_of_int !enc; p_bypp = nat_of_int !bypp; p_sbypp = nat_of_int !sbypp;
@@ -100,7 +102,7 @@ let () =
           if !enc = 7 && Array.length !fmt >= 10 then
             let f = !fmt in
             let zi k = z_of_int f.(k) in
-            send_tight_session (nat_of_int !sbypp) (nat_of_int !bypp) (zi 1) (zi 2) (zi 4) (zi 5) (zi 6) (zi 7) (zi 8) (zi 9)
+            send_tight_session !f7_fixed (nat_of_int !sbypp) (nat_of_int !bypp) (zi 0) (zi 1) (zi 2) (zi 3) (zi 4) (zi 5) (zi 6) (zi 7) (zi 8) (zi 9)
               (z_of_int !tight_level) (z_of_int !tight_quality) !tight_lastrect (ni x) (ni y) (ni w) (ni h) !scr !sfb
           else send_rect p (ni x) (ni y) (ni w) (ni h) !scr in
         (match result with
